@@ -49,6 +49,20 @@ M = [
   "        expanded = os.path.expanduser(part)\n", "        expanded = part.replace('~', os.path.expanduser('~'))\n"),
  ('C03', 'm15-plan-executes-too', 'rebench/executor.py',
   "            print(cmdline)\n            return True", "            print(cmdline)\n            self._print_execution_plan = False"),
+ ('C03', 'a01-time-p-dropped', 'rebench/interop/time_adapter.py',
+  'return "/usr/bin/time -p %s" % command', 'return "/usr/bin/time %s" % command'),
+ ('C03', 'a02-gtime-probed-on-any-failure', 'rebench/interop/time_adapter.py',
+  "        if formatted_output == 1:\n            try:", "        if formatted_output != 0:\n            try:"),
+ ('C03', 'a03-perf-record-uses-report-args', 'rebench/interop/perf_adapter.py',
+  'return (profiler.command + " " + profiler.record_args + " " +', 'return (profiler.command + " " + profiler.report_args + " " +'),
+ ('C03', 'a04-report-step-cwd-unexpanded', 'rebench/model/profiler.py',
+  "            location = os.path.expanduser(location)", "            pass"),
+ ('C03', 'a05-gtime-never-selected', 'rebench/interop/time_adapter.py',
+  '                    time_bin = "/opt/local/bin/gtime"', '                    pass'),
+ ('C03', 'a06-time-manual-wraps', 'rebench/interop/time_adapter.py',
+  "    def acquire_command(self, run_id):\n        return run_id.cmdline_for_next_invocation()", "    pass"),
+ ('C03', 'a07-report-step-without-env', 'rebench/model/profiler.py',
+  "run(cmdline, run_id.env, cwd=location,", "run(cmdline, {}, cwd=location,"),
  # ---------------------------------------------------------------- C20
  ('C20', 'n01-no-finally', 'rebench/rebench.py',
   "            finally:\n                restore_noise(denoise_result, show_denoise_warnings, self.ui)",
